@@ -184,8 +184,8 @@ func c16Truth(typ, op string, a, lit val.Value) bool {
 		rl.SetFloat64(float64(lit.(val.Decimal64)))
 		c = ra.Cmp(rl)
 	default:
-		ra, _ := new(big.Rat).SetString(a.String())
-		rl, _ := new(big.Rat).SetString(lit.String())
+		ra, _ := new(big.Rat).SetString(model.Lex(a))
+		rl, _ := new(big.Rat).SetString(model.Lex(lit))
 		c = ra.Cmp(rl)
 	}
 	switch op {
@@ -476,7 +476,7 @@ func (p *c16) Run(raw json.RawMessage) eng.Result {
 					streamErr = gerr.Error()
 					return
 				}
-				got = append(got, v.String())
+				got = append(got, model.Lex(v))
 			})
 		})
 		res.Evals++
